@@ -152,9 +152,10 @@ var variants = []variant{
 		put16(f, 18, pl-1-aux%10)
 		return f
 	}},
-	// ---- recorded defect classes: frames that are NOT echo replies by the RFCs but reach echoNotify ----
+	// ---- former defect classes (repaired in /repo b8d5cb8, 790e257, b261543): frames that are NOT echo
+	// replies by the RFCs and used to reach echoNotify; they must not complete a ping ----
 	// IPv4 header with a wrong version nibble or IHL < 5 (IP4.IsValid looks at neither)
-	{"hdr4", true, func(id uint16, aux, p int) []byte {
+	{"hdr4", false, func(id uint16, aux, p int) []byte {
 		// version nibble not 4, otherwise a clean reply
 		f := eth4(p, ip4Echo(peerIP4(p), lib.HostIP4, 1, lib.MkICMPEcho(0, 0, id, 1, data(aux))))
 		f[14] = byte([]int{0, 5, 6, 15}[aux%4])<<4 | 5
@@ -174,26 +175,26 @@ var variants = []variant{
 		ip[8] = 0
 		return lib.MkEther(lib.HostMAC, peerMAC(p), 0x0800, ip)
 	}},
-	{"hdr6", true, func(id uint16, aux, p int) []byte {
+	{"hdr6", false, func(id uint16, aux, p int) []byte {
 		f := eth6(p, lib.MkIP6(peerIP6(p), lib.HostLLA, 58, 64, echo6(peerIP6(p), lib.HostLLA, 129, id, data(aux))))
 		f[14] = byte([]int{0, 4, 5, 7, 15}[aux%5])<<4 | f[14]&15
 		return f
 	}},
 	// ICMPv6 protocol number in IPv4 (type 129), ICMP protocol number in IPv6 (type 0)
-	{"fam4", true, func(id uint16, aux, p int) []byte {
+	{"fam4", false, func(id uint16, aux, p int) []byte {
 		return eth4(p, ip4Echo(peerIP4(p), lib.HostIP4, 58, lib.MkICMPEcho(129, 0, id, 1, data(aux))))
 	}},
-	{"fam6", true, func(id uint16, aux, p int) []byte {
+	{"fam6", false, func(id uint16, aux, p int) []byte {
 		return eth6(p, lib.MkIP6(peerIP6(p), lib.HostLLA, 1, 64, lib.MkICMPEcho(0, 0, id, 1, data(aux))))
 	}},
 	// IPv4 TotalLength ends before the 8-byte ICMP header is complete, the frame goes on
-	{"tl4", true, func(id uint16, aux, p int) []byte {
+	{"tl4", false, func(id uint16, aux, p int) []byte {
 		f := eth4(p, ip4Echo(peerIP4(p), lib.HostIP4, 1, lib.MkICMPEcho(0, 0, id, 1, data(aux))))
 		put16(f, 16, 20+aux%8)
 		return f
 	}},
 	// IPv6 PayloadLength leaves fewer than 8 bytes of ICMPv6, the frame goes on
-	{"pl6", true, func(id uint16, aux, p int) []byte {
+	{"pl6", false, func(id uint16, aux, p int) []byte {
 		f := eth6(p, lib.MkIP6(peerIP6(p), lib.HostLLA, 58, 64, echo6(peerIP6(p), lib.HostLLA, 129, id, data(aux))))
 		put16(f, 18, aux%8)
 		return f
